@@ -107,7 +107,8 @@ func (n *fedNet) RoundTrip(req *http.Request) (*http.Response, error) {
 		n.total++
 		nr.Seq = n.total
 		if err := ctx.Err(); err != nil {
-			return &vsim.NetReply{Err: err}
+			// cancelled before it was sent: no node sees it
+			return &vsim.NetReply{Err: err, Hang: true}
 		}
 		r := n.handler(nr)
 		if r == nil {
@@ -127,6 +128,10 @@ func (n *fedNet) RoundTrip(req *http.Request) (*http.Response, error) {
 	select {
 	case <-t.C:
 	case <-ctx.Done():
+	}
+	if ctx.Err() != nil {
+		// (when the timer and the cancellation are both ready, select picks at random:
+		// the outcome must not depend on that pick)
 		t.Stop()
 		w.Park("net-cancelled", key, nil, nil)
 		return nil, ctx.Err()
